@@ -7,6 +7,8 @@ def rules(ctx):
     S.c17_rules(ctx)
     S.c05_r4_poison(ctx)
     S.walker_rules(ctx)
+    S.full_range_rules(ctx)
     S.c10_rules(ctx)
     S.c06_r7_multimap(ctx)
     S.loop_completeness_rules(ctx)
+    S.staged_root_rules(ctx)
